@@ -579,6 +579,20 @@ impl Session {
                     Err(e) => err_out(&e),
                 })
             }
+            ["ldregq", r, a] => {
+                // as `ldreg`, without printing the value (descriptor numbers are random by design and must not be observed
+                // where two runs are compared)
+                let r = reg_by_name(r)?;
+                let a = parse_hex(a)?;
+                let ax = self.ax();
+                Some(match ax.mem_read_64(a) {
+                    Ok(v) => {
+                        ax.reg_write_64(r, v).ok()?;
+                        "ok".to_string()
+                    }
+                    Err(e) => err_out(&e),
+                })
+            }
             ["ldreg", r, a] => {
                 let r = reg_by_name(r)?;
                 let a = parse_hex(a)?;
